@@ -1,12 +1,19 @@
 use super::*;
 
-pub(super) fn get_first_sets(rules: &[Rule]) -> HashMap<String, FirstSet> {
-    let builder = FirstSetMapBuilder { rules };
+pub(super) fn get_first_sets(
+    rules: &[Rule],
+    nonterminals: &[Nonterminal],
+) -> HashMap<String, FirstSet> {
+    let builder = FirstSetMapBuilder {
+        rules,
+        nonterminals,
+    };
     builder.get_first_sets()
 }
 
 struct FirstSetMapBuilder<'a> {
     rules: &'a [Rule<'a>],
+    nonterminals: &'a [Nonterminal],
 }
 
 impl FirstSetMapBuilder<'_> {
@@ -50,10 +57,12 @@ impl FirstSetMapBuilder<'_> {
         out
     }
 
+    /// This includes nonterminals that have no rules
+    /// (i.e., enums with zero variants).
     fn get_nonterminal_names(&self) -> Oset<&str> {
-        self.rules
+        self.nonterminals
             .iter()
-            .map(|rule| rule.constructor_name.type_name())
+            .map(|nonterminal| nonterminal.name())
             .collect()
     }
 
